@@ -35,6 +35,13 @@ CLASS = {  # (file, line, first words of 'what') -> classification
  ("request.go",94,"HasContent"): "equivalent: Peek(1) without error returns one byte",
  ("middleware/untyped/api.go",123,"RegisterConsumer"): "equivalent: NewAPI initialises the map",
  ("middleware/untyped/api.go",110,"RegisterAuth"): "equivalent: NewAPI initialises the map",
+ ("client/request.go",210,"buildHTTP"): "panic inside the client's own writer goroutine: the repository's client tests die as well; crashed C12's fault workers at first, now reported (panic/in-a-goroutine-of-the-client)",
+ ("client/request.go",128,"buildHTTP"): "nil dereference in buildHTTP: the repository's client tests fail as well; crashed C12 at first, now reported (panic)",
+ ("client/request.go",108,"buildHTTP"): "nil dereference in Submit: the repository's client tests fail as well; crashed C12's deadline sweep at first, now reported (panic)",
+ ("client/runtime.go",445,"Submit"): "nil dereference in Submit: the repository's client tests fail as well; crashed C12's fault workers at first, now reported",
+ ("client/runtime.go",491,"Submit"): "nil dereference in Submit: the repository's client tests fail as well; crashed C13's schedule workers and race pass at first, now reported (panic, history/panic, panic-free-running)",
+ ("client/runtime.go",450,"Submit"): "the lazily built client is never stored: nil dereference; the repository's client tests fail as well; crashed C13 at first, now reported",
+ ("client/runtime.go",545,"SetLogger"): "logging only",
  ("middleware/ui_options.go",169,"serveUI"): "Content-Type of the 404 of a UI middleware without next handler: the text fixes the status only",
 }
 rows=[]
